@@ -5,7 +5,17 @@
 # a `vp run` in progress.   usage: tools/iso.sh <command...>
 set -eu
 ISO=/var/tmp/repo-iso-$$
-trap 'rm -rf "$ISO"' EXIT
+# The target directories under /verif are shared with runs outside the namespace. A file that was
+# patched and restored in the clone has a newer time there than in /repo, and the artifacts built
+# from the patched clone would look fresh to cargo outside: every such file is touched in /repo at
+# the end, so that the next build outside recompiles it.
+finish() {
+    (cd "$ISO" && git ls-files -z | while IFS= read -r -d '' f; do
+        if [ -e "/repo/$f" ] && [ "$ISO/$f" -nt "/repo/$f" ]; then touch "/repo/$f"; fi
+    done)
+    rm -rf "$ISO"
+}
+trap finish EXIT
 git clone -q /repo "$ISO"
 # same file times as /repo, so that cargo does not rebuild the world on every switch
 (cd /repo && git ls-files -z | xargs -0 -I{} touch -r "/repo/{}" "$ISO/{}")
